@@ -170,20 +170,40 @@ def gen_history(r, maxops):
         elif x < 0.80:
             lines.append("%s %d %s" % (r.choice(["getp1", "gets1"]), rm(), rn()))
             note("lookup-by-string")
-        elif x < 0.86:
+        elif x < 0.85:
             lines.append("oaddp %d %d" % (r.randrange(4), rp()))
             note("optimizer-add-param")
-        elif x < 0.93:
+        elif x < 0.90:
             lines.append("oaddm %d %d" % (r.randrange(4), rm()))
             note("optimizer-add-model")
-        else:
+        elif x < 0.94:
             lines.append("oq %d" % r.randrange(4))
             note("optimizer-query")
+        elif x < 0.98:
+            src = rm()
+            y = r.random()
+            if y < 0.3:
+                dst = src                                   # reload into itself (shared objects included)
+                note("saveload-same-model")
+            elif y < 0.6:
+                # a model whose parameter paths are a superset of src's, if the generator knows one
+                want = set(map(tuple, sh.ppaths(src)))
+                cands = [d for d in range(nm) if d != src and want <= set(map(tuple, sh.ppaths(d)))]
+                dst = r.choice(cands) if cands else rm()
+                note("saveload-superset" if cands else "saveload-random")
+            else:
+                dst = rm()
+                note("saveload-random")
+            lines.append("sl %d %d %d" % (src, dst, r.randrange(2)))
+        else:
+            lines.append("pv")
+            note("parameter-values")
     # close every history with a full observation of the final state
     for m in range(nm):
         lines.append("all %d" % m)
     for o in range(4):
         lines.append("oq %d" % o)
+    lines.append("pv")
     return lines, kinds
 
 
@@ -305,6 +325,15 @@ def check_histories(ctx, name, hists, impl, model, impl_env=None, chunk=150):
     return len(bad_hists)
 
 
+def impl_env(extra=None):
+    d = os.path.join(pv.WORK, "reg-tmp")
+    os.makedirs(d, exist_ok=True)
+    e = {"PV_REG_TMP": d}
+    if extra:
+        e.update(extra)
+    return e
+
+
 def run(ctx):
     ctx.level = "proof"
     res = ctx.prove()
@@ -325,15 +354,16 @@ def run(ctx):
                        "(some invalid) and 2-6 names incl. the empty string, a non-ASCII byte string and prefixes of each other: Model::add of parameters and submodels "
                        "(aimed re-adds, duplicate names/objects, self, cycle attempts of any length, chains, diamonds), get_all/get_trainable_parameters, "
                        "get_parameter/get_submodel with valid, other-kind, mutated, random and empty paths, Optimizer::add(param/model) on SGD, MomentumSGD and two probe "
-                       "subclasses, registered-set queries; every history ends with a full observation of all models and optimizers; "
+                       "subclasses, registered-set queries, Model::save of one model followed by Model::load into the same / a superset / a random model (with and without statistics) and the "
+                       "resulting validity and value of every Parameter; every history ends with a full observation of all models and optimizers; "
                        "non-trivial = distinct histories on which implementation and model agree on every line")
     ctx.cov["input_distribution"] = dist
     ctx.cov["corpus_histories"] = ncorpus
-    check_histories(ctx, "reg", hists, impl, model)
+    check_histories(ctx, "reg", hists, impl, model, impl_env=impl_env())
     if not quick:
         impl2 = pv.build_harness("asan", "reg_drv")
         sub = hists[:: max(1, len(hists) // 30000)]
-        check_histories(ctx, "reg-asan", sub, impl2, model, impl_env={"ASAN_OPTIONS": "detect_leaks=1"})
+        check_histories(ctx, "reg-asan", sub, impl2, model, impl_env=impl_env({"ASAN_OPTIONS": "detect_leaks=1"}))
     if not quick and res["ok"]:
         # independent re-check of the compiled theorems by the stand-alone checker
         rc, out = pv.sh("timeout 1200 coqchk -silent -o -Q . PV PV.Props.Properties_C16", cwd=pv.COQ, timeout=1300)
@@ -364,7 +394,7 @@ def replay(ctx, obj):
         return 0
     model = pv.build_ocaml("reg")
     impl = pv.build_harness("plain", "reg_drv")
-    rc1, o1, rc2, o2 = run_both(impl, model, h)
+    rc1, o1, rc2, o2 = run_both(impl, model, h, impl_env())
     for i, l in enumerate(h):
         a = o1[i] if i < len(o1) else "<no output rc=%d>" % rc1
         b = o2[i] if i < len(o2) else "<no output rc=%d>" % rc2
